@@ -294,6 +294,7 @@ public:
     team(int nthreads, const opts &o, bool want_watchdog = true) : n(nthreads) {
         if (n > MAX_TEAM) n = MAX_TEAM;
         g_team.nteam = n;
+        for (int i = 0; i < MAX_SLOTS; i++) { for (int k = 0; k < NSITES; k++) g_team.slots[i].hits[k] = 0; g_team.slots[i].stalls_fired = 0; }
         cocls::verif::hook_handler = &hook_handler;
         pinned = n > 1 && res.reserve(n, o.cpudir, o.seed);
         g_team.yieldy = !pinned && n > 1;
